@@ -113,6 +113,23 @@ func (w Win) P(r ID) (ID, bool) {
 	return m, true
 }
 
+// validIDs: every model ID names, in the real grid, a voxel of the documented domain (zooms 0..35, indices
+// inside the grid, vertical index inside -2^v .. 2^v - 1).  What the library does with other inputs is not
+// covered by any property, so such cases are not driven.
+func (w Win) validIDs(ids ...ID) bool {
+	for _, m := range ids {
+		r := w.E(m)
+		if r.H < 0 || r.H > 35 || r.V < 0 || r.V > 35 {
+			return false
+		}
+		n, nv := int64(1)<<uint(r.H), int64(1)<<uint(r.V)
+		if r.X < 0 || r.X >= n || r.Y < 0 || r.Y >= n || r.F < -nv || r.F >= nv {
+			return false
+		}
+	}
+	return true
+}
+
 // PH projects a horizontal component (zoom, x, y); PV a vertical one.
 func (w Win) PH(h, x, y int64) (ID, bool) {
 	return w.P(ID{H: h, X: x, Y: y, V: w.V0, F: w.F0})
